@@ -1,0 +1,11 @@
+//go:build verif
+
+package server
+
+import "github.com/go-chi/chi/v5"
+
+// VerifRoutes exposes the router of the server for route discovery by the verification harness
+// (only compiled with the "verif" build tag).
+func (s *server) VerifRoutes() chi.Routes {
+	return s.handler.(chi.Routes)
+}
